@@ -497,6 +497,22 @@ DOC_EXAMPLES = [
     r'$$\min_w \|w\|_2^2$$ and \(a\) \[b\]',
     r'\def\itemeqn{\item}',
     r'\begin{verbatim}\item[\end{verbatim}',
+    # shapes of the findings of DESIGN.md section 12 (F1-F17), kept as seeds for
+    # the fault plans: a repair that is undone or half-redone shows up here first
+    '\\begin{a}x\\end\n{a}y\\end{a}',
+    r'\begin{}\end{}x',
+    r'\begin{a}x\end{\a}y\end{a}z',
+    r'\begin{1}x\end1y\end{1}z',
+    r'\begin{a}x\end\foo{a}y\end{a}',
+    r'{\begin{\begin{}}\end\end{}i}\end{*}x }\d ',
+    r'\begin{ a }x\end{a}y\begin{b }\end{ b}',
+    r'\begin[a]x\end{a}',
+    r'\begin{e}\c{\begin{e}\c{\begin{e}\c{x}\end{e}}\end{e}}\end{e}',
+    '$\\left.|x\\right.|$ $\\big\\{a\\Bigg\\rangle$',
+    'a\x00b\x7fc\\',
+    r'\begin{verbatim}',
+    r'\begin{itemize}\item a\item[b] c\end{itemize}\end',
+    r'\c[a][b]{d}[e\begin{q}]\end{q}',
 ]
 
 
